@@ -48,3 +48,46 @@ func TestC17V1QueryAndDescribe(t *testing.T) {
 		t.Errorf("v1 DescribeTable index ItemCount: %v", d.Table.GlobalSecondaryIndexes)
 	}
 }
+
+// C09/C18: reading through an index the table does not have is a validation error, not a crash.
+func TestUnknownIndexIsRejected(t *testing.T) {
+	c := v1.NewClient()
+	if err := v1.AddTable(c, "tbl", "h", ""); err != nil {
+		t.Fatal(err)
+	}
+	func() {
+		defer func() {
+			if r := recover(); r != nil {
+				t.Errorf("Scan with an unknown IndexName crashed: %v", r)
+			}
+		}()
+		_, err := c.Scan(&v1sdk.ScanInput{TableName: v1aws.String("tbl"), IndexName: v1aws.String("nosuch")})
+		if err == nil {
+			t.Errorf("Scan with an unknown IndexName succeeded")
+		}
+	}()
+}
+
+// C18: DescribeTable reports every index under its own name.
+func TestC18DescribeTableIndexNames(t *testing.T) {
+	c := v1.NewClient()
+	if err := v1.AddTable(c, "tbl", "h", ""); err != nil {
+		t.Fatal(err)
+	}
+	for _, n := range []string{"idx_a", "idx_b", "idx_c"} {
+		if err := v1.AddIndex(c, "tbl", n, "g", ""); err != nil {
+			t.Fatal(err)
+		}
+	}
+	d, err := c.DescribeTable(&v1sdk.DescribeTableInput{TableName: v1aws.String("tbl")})
+	if err != nil {
+		t.Fatal(err)
+	}
+	seen := map[string]bool{}
+	for _, g := range d.Table.GlobalSecondaryIndexes {
+		seen[*g.IndexName] = true
+	}
+	if len(seen) != 3 {
+		t.Errorf("DescribeTable of a table with indexes idx_a, idx_b, idx_c reports the names %v", seen)
+	}
+}
